@@ -232,6 +232,24 @@ def run(ctx):
                      f"verifier does not compare {cname}.{a}; no generator gap feeds it today (IR field parsed and rendered: R4/R5), so nothing is lost",
                      val.functions["_collect"].node, nontrivial=False)
                 c.note(f"C17.R4 verifier blind spot (unarmed, no generator gap today): {cname}.{a}")
+    # ---- R9 whether a field is rendered depends on that field alone ----------------------------------------------
+    # An `if` that guards the emission of obj.f may test the presence of obj.f; a test that also consults another field of
+    # the same IR object (`inv.id != inv.src`) drops the field for some inputs although the engine gives it a meaning of
+    # its own (an invoke id equal to its src is still the id done.invoke.<id> / sendTo address).
+    n9 = 0
+    for f in render_funcs:
+        for x in own_nodes(f.node):
+            if not isinstance(x, ast.If):
+                continue
+            emitted = {(y.value.id, y.attr) for st_ in x.body for y in ast.walk(st_) if isinstance(y, ast.Attribute) and isinstance(y.value, ast.Name)}
+            tested = {(y.value.id, y.attr) for y in ast.walk(x.test) if isinstance(y, ast.Attribute) and isinstance(y.value, ast.Name)}
+            for obj, fld in sorted(emitted & tested):
+                others = sorted(a for o, a in tested if o == obj and a != fld and not a.startswith("is_") and a not in ("type", "kind", "path", "key"))
+                n9 += 1
+                c.ob("R9", not others, f, f"field-rendered-on-its-own-presence:{obj}.{fld}", f"'{obj}.{fld}' is rendered whenever it is present" if not others else
+                     f"the rendering of '{obj}.{fld}' in {f.short} also depends on {[obj + '.' + a for a in others]} ('{norm(x.test)}'): for inputs where that extra test fails the "
+                     f"field is dropped from the generated code, although the engine treats it as given (and the verification fingerprint does not compare it)", x)
+    c.ob("R9", True, "cli.emit", "presence-tests", f"{n9} presence-guarded field emissions examined", None, nontrivial=False)
     # ---- R8 invoke handler lists are rendered completely -------------------------------------------
     # The engine keeps every onDone / onError candidate of an invoke (StateNode._parse_invoke maps the whole
     # list); a renderer on that path must not pick one element of the sequence.
